@@ -13,7 +13,7 @@ import (
 func init() {
 	register(&propDef{
 		ID:          "C10",
-		Explanation: "Decides the error discipline and buffer ownership on every path of generated and runtime code: R1 every statement the generator can emit that assigns the render error from a call (writes, literal writes, nested Render, RenderAttributes/CSS/Script items, expression evaluation) is immediately followed by an emitted `if err != nil { return … }` (all GEM emission paths, incl. the literal-closing template of the range writer); R2 expression evaluations are followed by the handler that wraps the error in templ.Error{FileName, Line from that same expression}; R3 the emitted template body returns ctx.Err() before acquiring the buffer or writing anything; R4 the emitted body releases the buffer only in a defer, only when it acquired it, and adopts the flush error iff no earlier error; R5 in packages templ and templ/runtime every error returned by a write to / render into the writer is propagated to a return on every path (no dropped or overwritten error); R6 pooled buffers are reset (on acquisition or before release) and flushed before being returned to the pool. R8 every runtime function that takes the expression's errors as a variadic ...error parameter hands the whole list to errors.Join or to another such function, and no condition inspects a single element of it (a guard on errs[0] alone drops an error that arrives second, as in `{{ v, errA, errB }}`); R9 the memory of a pooled buffer is not used after the buffer went back to the pool. R10 (= C15.R8) the generator options handed to concurrent workers are not appended to in place on a slice with spare capacity (a worker would otherwise generate a file with another template's file name in its error locations). NOT decided: the prefix property at each byte offset, behaviour of user writers.",
+		Explanation: "Decides the error discipline and buffer ownership on every path of generated and runtime code: R1 every statement the generator can emit that assigns the render error from a call (writes, literal writes, nested Render, RenderAttributes/CSS/Script items, expression evaluation) is immediately followed by an emitted `if err != nil { return … }` (all GEM emission paths, incl. the literal-closing template of the range writer); R2 expression evaluations are followed by the handler that wraps the error in templ.Error{FileName, Line from that same expression}; R3 the emitted template body returns ctx.Err() before acquiring the buffer or writing anything; R4 the emitted body releases the buffer only in a defer, only when it acquired it, and adopts the flush error iff no earlier error; R5 in packages templ and templ/runtime every error returned by a write to / render into the writer is propagated to a return on every path (no dropped or overwritten error); R6 pooled buffers are reset (on acquisition or before release) and flushed before being returned to the pool. R8 every runtime function that takes the expression's errors as a variadic ...error parameter hands the whole list to errors.Join or to another such function, and no condition inspects a single element of it (a guard on errs[0] alone drops an error that arrives second, as in `{{ v, errA, errB }}`); R9 the memory of a pooled buffer is not used after the buffer went back to the pool. R10 (= C15.R8) the generator options handed to concurrent workers are not appended to in place on a slice with spare capacity (a worker would otherwise generate a file with another template's file name in its error locations). R11 a parser.Expression literal built by the generator that embeds a user expression's text keeps that expression's Range (the emitted error handler takes Line/Col from it), and the handler emitter reads that Range; R12 no runtime function writes to the buffer's underlying writer itself — only the bufio.Writer does, which is what turns a short write with a nil error into io.ErrShortWrite. NOT decided: the prefix property at each byte offset, behaviour of user writers.",
 		Assumptions: []string{"bufio.Writer reports a short write as an error; a returned error aborts the caller's rendering (checked for generated callers by R1)"},
 		Trusted:     []string{"go/types", "go/parser", "x/tools go/packages, go/cfg"},
 		Run:         runC10,
@@ -34,6 +34,8 @@ func runC10(c *Ctx) {
 	variadicErrors(c, "C10.R8")
 	pooledBufferLifetime(c, "C10.R9")
 	sharedSliceAppends(c, "C10.R10")
+	errorLineFromUserExpression(c, "C10.R11")
+	bufferOnlyBufioWritesUnderlying(c, "C10.R12")
 	if c.thorough() {
 		generatedErrHandling(c, "C10.R7")
 	}
@@ -712,4 +714,78 @@ func freshEmptyValue(info *types.Info, e ast.Expr) (bool, string) {
 		}
 	}
 	return false, "the value put into the pool is neither a variable that was reset nor a fresh empty object"
+}
+
+// errorLineFromUserExpression: C10.R11 — an expression error carries "a source line inside that expression". The
+// emitted handler takes Line/Col from the Range of the parser.Expression it is given, so an expression that contains
+// the user's code must carry the user's Range: a parser.Expression literal built in the generator whose Value embeds
+// some <expr>.Value (user text that can fail at render time) but whose Range is not that same <expr>.Range reports every
+// failure of that code at line 1 (zero Range) or at an unrelated place.
+func errorLineFromUserExpression(c *Ctx, rule string) {
+	g := c.gem()
+	n := 0
+	for _, gf := range g.order {
+		ord := 0
+		ast.Inspect(gf.Decl.Body, func(x ast.Node) bool {
+			cl, ok := x.(*ast.CompositeLit)
+			if !ok {
+				return true
+			}
+			t := g.info.TypeOf(cl)
+			if t == nil || !types.Identical(t, g.exprType) {
+				return true
+			}
+			ord++
+			n++
+			var rangeExpr string
+			var valueExpr ast.Expr
+			for _, el := range cl.Elts {
+				if kv, ok := el.(*ast.KeyValueExpr); ok {
+					switch types.ExprString(kv.Key) {
+					case "Range":
+						rangeExpr = types.ExprString(kv.Value)
+					case "Value":
+						valueExpr = kv.Value
+					}
+				}
+			}
+			embedded := ""
+			if valueExpr != nil {
+				ast.Inspect(valueExpr, func(y ast.Node) bool {
+					if se, ok := y.(*ast.SelectorExpr); ok && se.Sel.Name == "Value" {
+						if tt := g.info.TypeOf(se.X); tt != nil && types.Identical(tt, g.exprType) {
+							embedded = types.ExprString(se.X)
+						}
+					}
+					return true
+				})
+			}
+			key := fmt.Sprintf("%s|expression-literal#%d|user-code-keeps-its-range", gf.Key, ord)
+			if embedded == "" {
+				c.ok(rule, key, c.pos(cl.Pos()), "the literal's text contains no user expression (nothing in it can fail at render time)")
+				return true
+			}
+			c.check(rangeExpr == embedded+".Range", rule, key, c.pos(cl.Pos()), "the literal keeps the Range of the user expression it embeds",
+				fmt.Sprintf("%s wraps the user's code %s.Value in a new parser.Expression whose Range is %s: the emitted error handler takes Line and Col from that Range, so a failure of the user's expression is reported at line 1, column 0 (or an unrelated place) instead of a line inside the expression", gf.Name, embedded, map[bool]string{true: "left zero", false: rangeExpr}[rangeExpr == ""]))
+			return true
+		})
+	}
+	c.count("expression_literals_in_generator", n)
+	// the handler really reads the Range of the expression it is given (otherwise this rule is about nothing)
+	reads := false
+	for _, gf := range g.order {
+		if !strings.Contains(gf.Name, "ErrorHandler") {
+			continue
+		}
+		ast.Inspect(gf.Decl.Body, func(y ast.Node) bool {
+			if se, ok := y.(*ast.SelectorExpr); ok && se.Sel.Name == "Range" {
+				if tt := g.info.TypeOf(se.X); tt != nil && types.Identical(tt, g.exprType) {
+					reads = true
+				}
+			}
+			return true
+		})
+	}
+	c.check(reads, rule, pkgGenerator+"|error-handler-reads-expression-range", "", "the emitted error handler takes its line from the Range of the expression it is given",
+		"no error-handler emitter reads the Range of a parser.Expression: the source line in templ.Error no longer comes from the failing expression")
 }
